@@ -128,12 +128,32 @@ def canonical_params(cname, m):
     return cands[0] if len(cands) == 1 else None
 
 
+def rec_owner(cname, field):
+    """name of the nested record an element member belongs to on the pinned tree"""
+    if cname in ('ut_map', 'ut_set'):
+        return 'keyed_element' if field in ('m_value', 'm_ttl_position') else 'ttl_element'
+    return 'element'
+
+
 def member_sig(t, records, in_record=False):
     import re
     tc = typeclass(t)
     t2 = (t or '').replace('const ', '').strip()
     if tc in ('vector', 'list'):
         return tc + ('<rec>' if any(('::' + r) in t2 for r in records) else '<scalar>')
+    if tc == 'multimap':
+        inner = t2.split('<', 1)[1] if '<' in t2 else ''
+        depth, key = 0, inner
+        for i, ch in enumerate(inner):
+            if ch == '<':
+                depth += 1
+            elif ch == '>':
+                depth -= 1
+            elif ch == ',' and depth == 0:
+                key = inner[:i]
+                break
+        if any(key.rstrip().endswith('::' + r) for r in records):
+            return 'multimap<rec-key>'        # a user-defined key type with its own ordering: outside the model
     if tc == 'other':
         if t2 in ('unsigned long', 'size_t', 'std::size_t', 'unsigned long long'):
             return 'ulong'
@@ -176,11 +196,12 @@ def canonicalise_names(prog):
                 cands[0].name = n
                 cands[0].node['name'] = n
         allrec = [f for rec in cm.records.values() for f in rec.fields]
-        rhave = {f.name for f in allrec}
+        rhave = {f.name for rn, rec in cm.records.items() for f in rec.fields if rn == rec_owner(cname, f.name)}
         rmissing = [n for n in sg['rec'] if n not in rhave]
         rextra = [f for f in allrec if f.name not in sg['rec']]
         for n in rmissing:
-            cands = [f for f in rextra if member_sig(f.type, cm.records, True) == sg['rec'][n] and f.id not in ren]
+            cands = [f for f in rextra if member_sig(f.type, cm.records, True) == sg['rec'][n] and f.id not in ren
+                     and f.owner.name == rec_owner(cname, n)]
             if len(cands) == 1:
                 ren[cands[0].id] = n
                 notes.append('%s: record member %s taken for %s (same type signature %s)' % (cname, cands[0].name, n, sg['rec'][n]))
@@ -253,6 +274,22 @@ class Roles:
         for k in ('value', 'deadline', 'stamp'):
             if r.get(k) and r[k] not in allrec:
                 probs.append('%s: element field %s (%s) not found' % (cm.name, r[k], k))
+        # the representation the model was written for: every member it names still has the coarse type it had on the pinned tree
+        sg = SIGS.get(cm.name)
+        if sg:
+            for n, want in sg['class'].items():
+                if n in fields and member_sig(fields[n].type, recs) != want and not (want == 'umap' and member_sig(fields[n].type, recs) == 'map'):
+                    probs.append('%s: member %s now has type %s (%s), the model expects %s' % (cm.name, n, fields[n].type[:60], member_sig(fields[n].type, recs), want))
+            for rn, rec in recs.items():
+                for f in rec.fields:
+                    want = sg['rec'].get(f.name)
+                    if want and want != 'value' and rn == rec_owner(cm.name, f.name) and member_sig(f.type, recs, True) != want \
+                            and not (want == 'umap_it' and member_sig(f.type, recs, True) == 'tree_it'):      # tree index: same iterator discipline
+                        probs.append('%s: element member %s now has type %s, the model expects %s' % (cm.name, f.name, f.type[:60], want))
+            for n in sg['rec']:
+                own = recs.get(rec_owner(cm.name, n))
+                if own is None or n not in [f.name for f in own.fields]:
+                    probs.append('%s: element member %s not found in %s' % (cm.name, n, rec_owner(cm.name, n)))
         if probs:
             raise AnalysisIncomplete('G-ANCHOR: ' + '; '.join(probs))
         self.lock = THIS('m_lock')
